@@ -491,7 +491,7 @@ class FakeWorkerProc:
 
     def terminate(self) -> None:
         self.w.log.add("worker-terminate", self.pid)
-        for n in self.w.fs.values():
+        for n in list(self.w.fs.values()):
             if n.kind == "sock" and n.sock is not None and n.sock.owner_pid == self.pid:
                 n.sock.close()
 
